@@ -69,7 +69,7 @@ CHECKS["C43"] = c("abci", "TestC43", dict(checks=60, timeout=600), dict(checks=4
 CHECKS["C13"] = c("abci", "TestC13", dict(checks=150, timeout=600), dict(checks=1500, shards=14, timeout=3000),
              technique="differential property-based testing: generated history with claims/proofs/stake changes/restarts executed with vs without generated service traffic (dispatch, RPC and ABCI queries at past heights)",
              design_ref="DESIGN.md §7 C13",
-             level_text="The real application runs a generated history twice, once while serving dispatch requests and latest/historical queries between the ABCI calls; transcripts and final store "
+             level_text="The real application runs a generated history twice, once while serving dispatch requests (through the application method and through the ABCI query route custom/pocketcore/dispatch at latest and past heights) and latest/historical queries between the ABCI calls; transcripts and final store "
                         "dumps must match. Histories contain the state changes that make a cached object stale (application edit/unstake/transfer, node edit/jail/unjail, claims for dispatched "
                         "sessions) and restarts that empty the node-local caches. Exploration.",
              level_note="Relay handling itself (HandleRelay) is exercised by C34/C35; simulate/CheckTx traffic by C11. Restart points are common to both runs.")
